@@ -61,6 +61,7 @@ struct Scenario {
     std::function<void()> setup;               // builds shared objects (managed thread 0)
     std::vector<std::vector<Op>> prog;         // one program per thread
     int bound = 2;                             // preemption bound explored
+    int fbound = -1;                           // bound on departures from the canonical thread order at points where the running thread cannot continue (-1: unbounded)
 };
 
 template<class PlanT>
@@ -146,6 +147,11 @@ static std::vector<Scenario> make_scenarios(bool thorough) {
         // a cache that became shared behind per-method locks (exists ... get is not atomic) fails exactly here
         free_fn("H2.rfft-evict.t4", {{rfftop(12, 91)}, {rfftop(14, 92), rfftop(18, 93), rfftop(20, 94)}, {rfftop(12, 95)}, {rfftop(22, 96)}}, 2);
         free_fn("H2.fft-evict.t4", {{fftop(12, 97)}, {fftop(9, 98), fftop(15, 99), fftop(20, 100)}, {ifftop(12, 101)}, {fftop(21, 102)}}, 2);
+        // "any number of threads": nine threads, one transform each (a table of per-thread state indexed modulo a small number,
+        // a fixed-size pool of scratch buffers ... only collides beyond eight threads); the race detector needs no preemption for it
+        free_fn("H2.fft-nine-threads.t9",
+                {{fftop(12, 111)}, {fftop(12, 112)}, {rfftop(12, 113)}, {fftop(9, 114)}, {ifftop(12, 115)}, {fftop(12, 116)}, {rfftop(14, 117)}, {fftop(12, 118)}, {fftop(12, 119)}}, 0);
+        S.back().fbound = 1;   // 9! thread orders otherwise: the canonical order and every order one departure away from it
         free_fn("H2.fft-same-length.t3", {{fftop(12, 21)}, {fftop(12, 22)}, {rfftop(12, 23)}}, 2);
         free_fn("H2.xcorr-fftfilter.t2",
                 {{Op{"xcorr", [] { return H(xcorr(rletter(20, 31), rletter(9, 32))); }},
@@ -504,6 +510,7 @@ struct Explorer {
     std::vector<Skipped> skipped;             // alternatives at (so far) thread-private atomics
     uint64_t pruned = 0;
     int abound = 1;                           // bound on preemptions taken at atomic operations
+    int fbound = 1 << 30;                     // bound on non-preemptive departures from the canonical order (many-thread scenarios)
     int shard = 0, nshards = 1;               // the subtrees below the root execution are dealt out to the shards
     uint64_t top_idx = 0;
     std::set<std::string> outcomes;           // distinct result vectors observed
@@ -672,7 +679,7 @@ struct Explorer {
             }
             for (auto& kv : fl) edge[kv.second.first] = edge[kv.second.second] = 1;
         }
-        int cost = 0, acost = 0;
+        int cost = 0, acost = 0, fcost = 0;
         std::vector<int> chosen;
         for (size_t i = 0; i < pts.size(); ++i) {
             if (i >= prefix.size()) {
@@ -684,6 +691,7 @@ struct Explorer {
                     int c = cost + (pts[i].cur_enabled ? 1 : 0);
                     int ac = acost + ((pts[i].cur_enabled && pts[i].kind == 2) ? 1 : 0);
                     if (c > bound || ac > abound) continue;
+                    if (!pts[i].cur_enabled && fcost + 1 > fbound) continue;
                     std::vector<int> np(chosen);
                     np.push_back(alt);
                     bool child_dealt = dealt;
@@ -703,6 +711,7 @@ struct Explorer {
                 ++cost;
                 if (pts[i].kind == 2) ++acost;
             }
+            if (!pts[i].cur_enabled && pts[i].chosen != 0) ++fcost;
             chosen.push_back(pts[i].chosen);
         }
     }
@@ -792,6 +801,7 @@ int main(int argc, char** argv) {
         Explorer ex{ctx, sc};
         double t0 = ctx.elapsed();
         ex.abound = ctx.thorough() ? 2 : 1;
+        if (sc.fbound >= 0) ex.fbound = ctx.thorough() ? sc.fbound + 1 : sc.fbound;
         ex.shard = ctx.replay ? 0 : ctx.shard;
         ex.nshards = ctx.replay ? 1 : ctx.nshards;
         if (const char* b = getenv("VERIF_C09_ABOUND")) ex.abound = atoi(b);
